@@ -75,3 +75,6 @@ Qed.
 Print Assumptions C10_mds_is_the_statement_matrix.
 Print Assumptions C10_gold_poseidon_conforms_partial.
 Print Assumptions C10_loops_are_the_source.
+Print Assumptions C10_round0_is_published.
+Print Assumptions C10_round0_constants_of_model.
+Print Assumptions C10_known_answers_on_reference.
